@@ -533,6 +533,8 @@ recode_qp(const char *buf, const off_t len)
 				idx += chunk;
 				sendbuf[idx++] = '.';
 				chunk = 0;
+				/* the next character is not at the beginning of the line anymore */
+				llen++;
 			} else if ((buf[off + chunk] == '\t') || (buf[off + chunk] == ' ')) {
 				/* recode whitespace if a linebreak or the end of the data follows */
 				if ((off + (off_t) chunk + 1 == len) ||
